@@ -38,6 +38,13 @@
  *   obsfetch  FETCH observations with the client's block handling ON: small body, 2500-byte body sent block-wise (one Observe
  *          token kept per block), notifications, coap_cancel_observe of both
  *   b1o.<digits>  the five hand-built Block1 requests of b1raw in the order given (digits 0..4, repeats allowed)
+ *   dly    sends that are DELAYED (coap_session_delay_pdu): three CON GETs and a NON back to back on one UDP session with
+ *          NSTART = 1 -- the second and third CON wait in the session's delay queue until the ACK of the one before frees
+ *          the slot (coap_session_connected drains the queue) --, then a CON while a retransmission is outstanding
+ *   tcp    CoAP over TCP on real loopback sockets (served through the epoll_wait wrap / settle): a TCP endpoint, two client
+ *          sessions (CSM exchange), PUT with a 400-byte payload on each (the message is LONGER than the 256 bytes a fresh
+ *          receive PDU has: coap_read_session grows it with coap_pdu_resize), a 1200-byte PUT, a short GET, then the first
+ *          session again after whatever happened to the second
  *
  * after the canary (every scenario): refs=<ok | list of sessions whose reference count differs from the number of their
  * holders> idle=<server sessions without holder that survive the session timeout>
@@ -53,7 +60,9 @@
  *   C<size> K (delete pdu)
  *   L<num>:<len> (coap_new_optlist + coap_insert_optlist)  P (coap_add_optlist_pdu)  X (coap_delete_optlist)
  *   S<len> s<len> b<len> (coap_new_string / coap_new_str_const / coap_new_bin_const)  F (delete all strings)
- *   Vc Vn (coap_send of the current PDU as CON / NON on an established UDP client session)  W0 W1 (socket write ok / fails)
+ *   Vc Vn (coap_send of the current PDU as CON / NON on the UDP client session)  W0 W1 (socket write ok / fails)
+ *   E0 (the session is not established: state CONNECTING as during a DTLS handshake / TCP connect -- every send is delayed)
+ *   E1 (coap_session_connected(): state ESTABLISHED, the delay queue is drained as far as NSTART allows)
  *   A<toklen> (coap_add_observer(/obs, the server's session for the client, token 01 02 .. of that length, request = the current PDU))
  *   B<toklen> (coap_delete_observer(/obs, that session, token))
  * output (ahelp):  n=<requests> rc=<per op> pdu=<alloc>/<max>/<max_opt>/<data offset|->/<hex of token[0..used)> ol=<nums> str=<n>
@@ -70,6 +79,9 @@
 #include <link.h>
 #include <signal.h>
 #include <unistd.h>
+#include <poll.h>
+#include <sys/ioctl.h>
+#include <linux/sockios.h>
 
 /* ------------------------------------------------------------------ allocation wrap: trace + fault injection */
 void *__real_coap_malloc_type(coap_memory_tag_t type, size_t size);
@@ -275,6 +287,76 @@ static int pump(void) {
   }
   return n;
 }
+
+/* ------------------------------------------------------------------ CoAP over TCP: real loopback sockets
+ * sim_core's scripted network is datagrams only.  TCP endpoints / sessions use the kernel's loopback; which socket is ready
+ * is asked with poll(2) and handed to libcoap as the epoll event it would have got (coap_io_do_epoll), from settle() and from
+ * the epoll_wait wrap (so libcoap's own waits -- coap_client_delay_first during the CSM exchange -- make progress).  On
+ * loopback a send() has queued the bytes at the peer when it returns, so the order of events is a function of the scan order. */
+static int tcp_on;
+static int tcp_sock_ready(coap_socket_t *sock, struct epoll_event *ev, int wait_ms) {
+  struct pollfd pf;
+  if (sock->fd < 0) return 0;
+  pf.fd = sock->fd; pf.events = 0; pf.revents = 0;
+  if (sock->flags & (COAP_SOCKET_WANT_READ | COAP_SOCKET_WANT_ACCEPT)) pf.events |= POLLIN;
+  if (sock->flags & (COAP_SOCKET_WANT_WRITE | COAP_SOCKET_WANT_CONNECT)) pf.events |= POLLOUT;
+  if (!pf.events) return 0;
+  if (poll(&pf, 1, wait_ms) <= 0 || !pf.revents) return 0;
+  memset(ev, 0, sizeof(*ev));
+  if (pf.revents & POLLIN) ev->events |= EPOLLIN;
+  if (pf.revents & POLLOUT) ev->events |= EPOLLOUT;
+  if (pf.revents & POLLERR) ev->events |= EPOLLERR;
+  if (pf.revents & POLLHUP) ev->events |= EPOLLHUP;
+  ev->data.ptr = sock;
+  return 1;
+}
+static int tcp_ready(coap_context_t *c, struct epoll_event *ev, int wait_ms) {
+  coap_session_t *s, *tmp;
+  coap_endpoint_t *e;
+  if (!c) return 0;
+  LL_FOREACH(c->endpoint, e) {
+    if (e->proto == COAP_PROTO_TCP && tcp_sock_ready(&e->sock, ev, wait_ms)) return 1;
+    SESSIONS_ITER(e->sessions, s, tmp) if (s->proto == COAP_PROTO_TCP && tcp_sock_ready(&s->sock, ev, wait_ms)) return 1;
+  }
+  SESSIONS_ITER(c->sessions, s, tmp) if (s->proto == COAP_PROTO_TCP && tcp_sock_ready(&s->sock, ev, wait_ms)) return 1;
+  return 0;
+}
+/* Nothing is in flight between the two contexts: no connect pending, every byte written has reached the peer's socket
+ * (SIOCOUTQ = 0: on loopback "acknowledged" means "in the peer's receive queue"), and both sides agree on the number of
+ * connections (an accept or a close that the other side has not seen yet makes them differ).  The kernel may defer loopback
+ * delivery to a softirq thread on a loaded machine: "no socket ready right now" alone does not mean that nothing will come. */
+static int tcp_quiescent(void) {
+  coap_session_t *s, *tmp;
+  coap_endpoint_t *e;
+  unsigned nc = 0, ns = 0;
+  int v;
+  if (cli) SESSIONS_ITER(cli->sessions, s, tmp) if (s->proto == COAP_PROTO_TCP) {
+    if (s->sock.flags & COAP_SOCKET_WANT_CONNECT) return 0;
+    if (s->sock.flags & COAP_SOCKET_CONNECTED) { nc++; v = 0; if (!ioctl(s->sock.fd, SIOCOUTQ, &v) && v > 0) return 0; }
+  }
+  if (srv) LL_FOREACH(srv->endpoint, e) SESSIONS_ITER(e->sessions, s, tmp) if (s->proto == COAP_PROTO_TCP) {
+    if (s->sock.flags & COAP_SOCKET_CONNECTED) { ns++; v = 0; if (!ioctl(s->sock.fd, SIOCOUTQ, &v) && v > 0) return 0; }
+  }
+  return nc == ns;
+}
+/* one event of either context; 0 = nothing ready and nothing in flight (waits in REAL time, at most 2 s, for what is) */
+static int tcp_step(void) {
+  struct epoll_event ev;
+  for (int waits = 0; waits < 4000; waits++) {
+    if (tcp_ready(srv, &ev, 0)) { coap_io_do_epoll(srv, &ev, 1); return 1; }
+    if (tcp_ready(cli, &ev, 0)) { coap_io_do_epoll(cli, &ev, 1); return 1; }
+    if (tcp_quiescent()) return 0;
+    usleep(500);
+  }
+  return 0;
+}
+/* serve both contexts until no TCP socket is ready and nothing is in flight (one event at a time: a session may go away in the call) */
+static int tcp_pump(void) {
+  int n = 0;
+  if (!tcp_on) return 0;
+  while (n < 400 && tcp_step()) n++;
+  return n;
+}
 /* libcoap itself waits (coap_client_delay_first -> coap_io_process -> epoll_wait, lock released) while a session's
  * first exchange is outstanding: the wait happens in VIRTUAL time and the datagrams in flight are delivered meanwhile.
  * link with --wrap=epoll_wait. */
@@ -297,6 +379,18 @@ int __wrap_epoll_wait(int epfd, struct epoll_event *events, int maxevents, int t
   int guard = 0;
   (void)maxevents;
   if (offered && !sim_rx.have) { pending_remove(offered); offered = NULL; }
+  if (tcp_on) {
+    /* the other context is served through the public API, then one ready socket of this one is reported */
+    coap_context_t *me = cli && cli->epfd == epfd ? cli : srv && srv->epfd == epfd ? srv : NULL;
+    coap_context_t *other = me == cli ? srv : cli;
+    struct epoll_event ev;
+    for (int waits = 0; me && waits < 4000; waits++) {
+      for (int g = 0; g < 50 && other && tcp_ready(other, &ev, 0); g++) coap_io_do_epoll(other, &ev, 1);
+      if (tcp_ready(me, &events[0], 0)) return 1;
+      if (tcp_quiescent()) break;
+      usleep(500);
+    }
+  }
   for (int i = 0; i < npending && guard < 1000; guard++) {
     coap_socket_t *sock = NULL;
     int is_ep = 0;
@@ -336,9 +430,10 @@ static void settle(unsigned max_ms) {
   for (int i = 0; i < 400; i++) {
     unsigned w = 0, w2 = 0;
     pump();
+    tcp_pump();
     if (cli) w = coap_io_prepare_epoll(cli, sim_now);
     if (srv) w2 = coap_io_prepare_epoll(srv, sim_now);
-    if (npending) continue;
+    if (npending || tcp_pump()) continue;
     if ((!cli || !cli->sendqueue) && (!srv || !srv->sendqueue)) break;
     if (w2 && (!w || w2 < w)) w = w2;
     if (!w) w = 1000;
@@ -637,7 +732,9 @@ static int world_up(int oscore, int extras) {
   sim_sess_id(cs);
   return 1;
 }
+static void tcp_world_down(void);
 static void world_down(void) {
+  tcp_world_down();
   if (cs) coap_session_release(cs);
   if (cli) coap_free_context(cli);
   if (srv) coap_free_context(srv);
@@ -1266,6 +1363,109 @@ static void scn_async(void) {
   settle(120000);
 }
 
+
+/* sends that have to WAIT: NSTART = 1, so of three CONs sent back to back the second and third go to the session's delay queue
+ * (coap_session_delay_pdu: a queue node each); the NON goes out at once; the ACKs drain the queue (coap_session_connected).
+ * Then a CON whose first transmission is lost, with two more CONs waiting behind it until its retransmission is answered */
+static int dly_drop;
+static void dly_tx(const sim_dgram_t *d) {
+  if (dly_drop > 0 && d->dst.addr.sin.sin_port == ep->bind_addr.addr.sin.sin_port) { dly_drop--; return; }   /* lost on the way to the server */
+  on_tx(d);
+}
+static void scn_dly(void) {
+  coap_pdu_t *p;
+  uint8_t tok[2] = {0x91, 0};
+  if (!world_up(0, 0)) { out_put("setup-fail"); return; }
+  for (int i = 0; i < 4; i++) {
+    tok[1] = (uint8_t)(i + 1);
+    p = new_req(i == 2 ? COAP_MESSAGE_NON : COAP_MESSAGE_CON, COAP_REQUEST_CODE_GET, tok, 2, "r");
+    if (!p) out_put("pdu-fail"); else tracked_send(cs, p);
+  }
+  out_put("dq%u", sim_delayq_len(cs));
+  settle(120000);
+  out_put("dq%u", sim_delayq_len(cs));
+  /* the first transmission of a CON is lost: while it waits for its retransmission two more CONs queue up behind it */
+  dly_drop = 1; sim_tx_hook = dly_tx;
+  for (int i = 0; i < 3; i++) {
+    tok[1] = (uint8_t)(i + 0x11);
+    p = new_req(COAP_MESSAGE_CON, COAP_REQUEST_CODE_GET, tok, 2, "r");
+    if (!p) out_put("pdu-fail"); else tracked_send(cs, p);
+  }
+  out_put("dq%u", sim_delayq_len(cs));
+  settle(120000);
+  sim_tx_hook = on_tx;
+  out_put("dq%u", sim_delayq_len(cs));
+}
+
+/* CoAP over TCP (RFC 8323) between the two contexts over the kernel's loopback: messages longer than the first buffer of the
+ * receive PDU make coap_read_session grow it once the length is known */
+static coap_endpoint_t *tep;
+static coap_session_t *ts1, *ts2;
+static int tcp_put_ok, tcp_put_bad;
+static void hnd_tput(coap_resource_t *r, coap_session_t *s, const coap_pdu_t *req, const coap_string_t *q, coap_pdu_t *rsp) {
+  size_t len = 0;
+  const uint8_t *data = NULL;
+  (void)r; (void)s; (void)q;
+  s_req++;
+  if (coap_get_data(req, &len, &data) && (len == 400 || len == 1200) && !memcmp(data, body, len)) tcp_put_ok++; else tcp_put_bad++;
+  coap_pdu_set_code(rsp, COAP_RESPONSE_CODE_CHANGED);
+}
+static void tcp_send(coap_session_t *s, int code, int tokb, const char *path, size_t plen) {
+  coap_pdu_t *p;
+  uint8_t tok[2] = {0x92, (uint8_t)tokb};
+  if (!s) { out_put("nosess"); return; }
+  p = coap_new_pdu(COAP_MESSAGE_CON, (coap_pdu_code_t)code, s);
+  if (p && (!coap_add_token(p, 2, tok) || !coap_add_option(p, COAP_OPTION_URI_PATH, strlen(path), (const uint8_t *)path) ||
+            (plen && !coap_add_data(p, plen, body)))) { coap_delete_pdu(p); p = NULL; }
+  if (!p) { out_put("pdu-fail"); return; }
+  tracked_send(s, p);
+  settle(30000);
+}
+static unsigned tcp_srv_sessions(void) {
+  unsigned n = 0;
+  coap_session_t *s, *tmp;
+  if (tep) SESSIONS_ITER(tep->sessions, s, tmp) n++;
+  return n;
+}
+static void tcp_world_down(void) {
+  if (ts1) coap_session_release(ts1);
+  if (ts2) coap_session_release(ts2);
+  ts1 = ts2 = NULL; tep = NULL;
+}
+static void scn_tcp(void) {
+  coap_address_t a;
+  ts1 = ts2 = NULL; tep = NULL; tcp_put_ok = tcp_put_bad = 0;
+  tcp_on = 1;
+  if (!world_up(0, 0)) { out_put("setup-fail"); return; }
+  if (!add_res("tput", COAP_REQUEST_PUT, hnd_tput, 0, NULL)) { out_put("setup-fail"); return; }
+  sim_addr(&a, 0);
+  tep = coap_new_endpoint(srv, &a, COAP_PROTO_TCP);
+  if (!tep) { out_put("tcp-ep-fail"); return; }
+  a = tep->bind_addr;
+  ts1 = coap_new_client_session(cli, NULL, &a, COAP_PROTO_TCP);
+  ts2 = coap_new_client_session(cli, NULL, &a, COAP_PROTO_TCP);
+  out_put("sess%d%d", !!ts1, !!ts2);
+  settle(30000);
+  out_put("est%d%d/%u", ts1 && ts1->state == COAP_SESSION_STATE_ESTABLISHED, ts2 && ts2->state == COAP_SESSION_STATE_ESTABLISHED,
+          tcp_srv_sessions());
+  tcp_send(ts1, COAP_REQUEST_CODE_PUT, 1, "tput", 400);
+  tcp_send(ts2, COAP_REQUEST_CODE_PUT, 2, "tput", 400);
+  tcp_send(ts2, COAP_REQUEST_CODE_PUT, 3, "tput", 1200);
+  tcp_send(ts2, COAP_REQUEST_CODE_GET, 4, "r", 0);
+  /* whatever happened to the second session, the first one is still served */
+  tcp_send(ts1, COAP_REQUEST_CODE_PUT, 5, "tput", 400);
+  out_put("tput%d/%d,srvs%u", tcp_put_ok, tcp_put_bad, tcp_srv_sessions());
+  /* a session that is still up must still be served: unless a request fails during the probe itself, every GET on an
+   * established session is answered ("deaf" otherwise: the failure on one session has broken another one) */
+  {
+    int before = af_nfailed, rsp0 = c_rsp, asked = 0;
+    if (ts1 && ts1->state == COAP_SESSION_STATE_ESTABLISHED) { tcp_send(ts1, COAP_REQUEST_CODE_GET, 6, "r", 0); asked++; }
+    if (ts2 && ts2->state == COAP_SESSION_STATE_ESTABLISHED) { tcp_send(ts2, COAP_REQUEST_CODE_GET, 7, "r", 0); asked++; }
+    if (af_nfailed == before && c_rsp - rsp0 != asked) out_put("deaf%d/%d", c_rsp - rsp0, asked);
+    out_put("up%d", asked);
+  }
+}
+
 /* the canary: with memory available a fresh CON GET /r must be answered 2.05 */
 static int canary_once(void) {
   coap_pdu_t *p;
@@ -1303,6 +1503,7 @@ static unsigned holders_of(coap_context_t *c, coap_session_t *s) {
   LL_FOREACH(c->async_state, a) if (a->session == s) n++;
 #endif
   if (s == cs) n++;
+  if (s == ts1 || s == ts2) n++;
   return n;
 }
 static char rb[256];
@@ -1333,6 +1534,7 @@ static const struct { const char *name; void (*fn)(void); } scns[] = {
   {"setup", scn_setup}, {"osc", scn_osc}, {"h508", scn_h508},
   {"wkc", scn_wkc}, {"b1raw", scn_b1raw}, {"b2raw", scn_b2raw}, {"obsblk", scn_obsblk}, {"cache", scn_cache}, {"async", scn_async},
   {"obsre", scn_obsre}, {"obsfetch", scn_obsfetch}, {"oscobs", scn_oscobs}, {"echo", scn_echo}, {"xtok", scn_xtok},
+  {"dly", scn_dly}, {"tcp", scn_tcp},
 };
 
 static void on_alarm(int sig) {
@@ -1368,7 +1570,7 @@ static void begin_line(void) {
   w_srv_block = w_cli_block = 1;
   exp_body = body; exp_len = sizeof(body); exp_strict = 0;
   memcpy(obody, body, sizeof(body));
-  raw2_served = 0; g_async = NULL; cache_cb = 0; cache_live = 0;
+  raw2_served = 0; g_async = NULL; cache_cb = 0; cache_live = 0; tcp_on = 0;
   af_count = 0; af_nfailed = 0; af_open = 0;
   if (getenv("H_DEBUG")) coap_set_log_level(COAP_LOG_DEBUG);          /* debugging aid: libcoap's own log on stderr */
   tr_reset();
@@ -1483,6 +1685,7 @@ static void do_ahelp(char **w, int n) {
     } else if (strchr("KPXF", e[0])) { if (e[1]) { printf("bad-op"); return; } }
     else if (e[0] == 'V') { if (strcmp(e, "Vc") && strcmp(e, "Vn")) { printf("bad-op"); return; } }
     else if (e[0] == 'W') { if (strcmp(e, "W0") && strcmp(e, "W1")) { printf("bad-op"); return; } }
+    else if (e[0] == 'E') { if (strcmp(e, "E0") && strcmp(e, "E1")) { printf("bad-op"); return; } }
     else { printf("bad-op"); return; }
   }
   begin_line();
@@ -1515,7 +1718,7 @@ static void do_ahelp(char **w, int n) {
     char *end;
     unsigned long a = 0, b = 0;
     char rcs[32] = "-";
-    if (e[1] && e[0] != 'V' && e[0] != 'W') { a = strtoul(e + 1, &end, 10); if (*end == ':') b = strtoul(end + 1, NULL, 10); }
+    if (e[1] && e[0] != 'V' && e[0] != 'W' && e[0] != 'E') { a = strtoul(e + 1, &end, 10); if (*end == ':') b = strtoul(end + 1, NULL, 10); }
     switch (e[0]) {
     case 'I':
       if (pdu) coap_delete_pdu(pdu);
@@ -1540,6 +1743,13 @@ static void do_ahelp(char **w, int n) {
       break;
     case 'F': for (int j = 0; j < nstr; j++) coap_delete_string((coap_string_t *)strs[j]); nstr = 0; strcpy(rcs, "1"); break;
     case 'W': sim_send_result_override = e[1] == '1' ? -1 : 0; strcpy(rcs, "1"); break;
+    case 'E':
+      /* E0: the state a client session is in while the DTLS handshake / TCP connect / CSM exchange is pending: coap_send_pdu
+       * delays every message; E1: what the transport layer calls when the session is up: the delay queue is drained */
+      if (e[1] == '0') cs->state = COAP_SESSION_STATE_CONNECTING;
+      else { coap_lock_lock(cli, break); coap_session_connected(cs); coap_lock_unlock(cli); }
+      strcpy(rcs, "1");
+      break;
     case 'A':
       if (pdu && ss && a <= sizeof(val)) {
         coap_bin_const_t tk = { a, val };
